@@ -370,6 +370,8 @@ class SArray(SArrayBase):
         s = 0
         for a in self.items:
             s = _num(a) + s
+        if type(s) is int:
+            return _np.int64(s)  # numpy scalar semantics (e.g. 0/0 -> nan, not ZeroDivisionError)
         return s
 
     def any(self):
